@@ -515,7 +515,7 @@ def ray_nearest(w, origin, direction, bodyexclude):
     if geomref.TYPES[t] in ('hfield', 'mesh') or t >= len(geomref.TYPES):
       return None
     sh = geomref.shape_from_model(m, d, g)
-    r = geomref.ray_shape(sh, origin, direction)
+    r = geomref.ray_shape(sh, origin, direction, tangent_tol=1e-6)
     if r is None:
       continue
     if r.get('fragile'):
